@@ -73,6 +73,9 @@ async def scenario(loop, plan, out):
             # table and the counters are still in non-volatile memory
             sim.network, sim.current_sec, sim.stack_up = None, None, False
             sim.children = {}  # (leaving erased the child table)
+    if plan.get("refuse_key") is not None and plan["net"]["link_keys"]:
+        # the NCP refuses one particular link key (an address it does not accept); the others must still be restored
+        sim.refuse_partner = bytes.fromhex(plan["net"]["link_keys"][plan["refuse_key"] % len(plan["net"]["link_keys"])]["partner"])
     ezsp = e.EZSP({"path": "/dev/null", "baudrate": 115200, "flow_control": None})
     sim.attach(ezsp)
     ezsp._switch_protocol_version(v)
@@ -217,6 +220,9 @@ def check(plan) -> Result:
         cmp("ncp-eui64", hx(sim.eui64()), hx(out["node_ieee_written"]))
     # link keys as a set of (partner, key)
     want_keys = {(k["partner"], k["key"]) for k in ni["link_keys"]}
+    if sim.refuse_partner is not None:
+        want_keys = {k_ for k_ in want_keys if k_[0] != hx(sim.refuse_partner)}
+        r.cls("one-link-key-refused-by-ncp")
     if out.get("erased"):
         want_keys.discard(out["erased"])
         r.cls("key-erased-after-restore")
@@ -295,6 +301,8 @@ def plans(draw, versions=tuple(range(4, 15))):
             "allow_burn": draw(st.booleans())}
     if draw(st.integers(0, 2)) == 0:
         plan["reload"] = True
+    if nkeys >= 2 and draw(st.integers(0, 2)) == 0:
+        plan["refuse_key"] = draw(st.integers(0, nkeys - 2))
     if nkeys >= 2 and draw(st.booleans()):
         plan["erase"] = draw(st.integers(0, nkeys - 2))  # never the last used slot: a hole needs something behind it
     return plan
